@@ -725,6 +725,30 @@ impl<'a, 't> Gen<'a, 't> {
         let min = if min == 0 && depth > 0 && !self.g.want("C10_EMPTY_STATEMENT_LIST") { 1 } else { min };
         let n = min + self.cnt(0, 3);
         let mut v = Vec::new();
+        // now and then a long run of one tiny statement (a hundred timer ticks, a table of
+        // assignments): whatever a front end counts, keeps or leaks per statement adds up
+        if depth == 0 && self.t.ratio(1, 120) && self.g.want("LONG_LIST") && self.g.want("C10_FB_CALL_STATEMENT") {
+            let reps = *self.t.pick(&[64usize, 100, 101, 130, 257]);
+            let callee = self.name();
+            let target = self.variable_any(0);
+            let shape = self.t.below(4);
+            for i in 0..reps {
+                v.push(match shape {
+                    0 => StmtKind::FbCall(FbCall { var_name: callee.clone(), params: vec![], position: SourceSpan::default() }),
+                    1 => StmtKind::assignment(target.clone(), ExprKind::Function(Function { name: callee.clone(), param_assignment: vec![] })),
+                    2 => StmtKind::assignment(target.clone(), self.atom(self.max_depth)),
+                    _ => {
+                        if i % 2 == 0 {
+                            StmtKind::FbCall(FbCall { var_name: callee.clone(), params: vec![], position: SourceSpan::default() })
+                        } else {
+                            StmtKind::assignment(target.clone(), self.atom(self.max_depth))
+                        }
+                    }
+                });
+            }
+            v.push(StmtKind::assignment(target, self.expr(0)));
+            return v;
+        }
         for _ in 0..n {
             if self.stmt_budget == 0 && v.len() >= min {
                 break;
